@@ -167,6 +167,46 @@ func symIndexCheck(idx *sym, n int) *expr {
 func loadIndexed(cells []value, idx *sym) value {
 	n := len(cells)
 	ie := symIndexCheck(idx, n)
+	// fast path: a table of concrete scalars of one Go type → ite chain over runs of equal cells
+	if n > 0 {
+		if k0, _, ok := valKind(cells[0]); ok {
+			same := true
+			for _, c := range cells[1:] {
+				if kk, _, ok := valKind(c); !ok || kk != k0 {
+					same = false
+					break
+				}
+			}
+			if same {
+				ew, _ := kindWidth(k0)
+				type run struct {
+					start int
+					v     value
+				}
+				runs := make([]run, 0, 16)
+				for i, c := range cells {
+					if len(runs) == 0 || runs[len(runs)-1].v != c {
+						runs = append(runs, run{i, c})
+					}
+				}
+				key := tabKey{&cells[0], n, ie}
+				if e, ok := tabCache[key]; ok && len(runs) == e.nruns {
+					return wrap(e.e, k0)
+				}
+				last, _, _ := toExpr(runs[len(runs)-1].v)
+				res := last
+				for j := len(runs) - 2; j >= 0; j-- {
+					cond := mkop("bvult", 0, ie, konst(64, uint64(runs[j+1].start)))
+					rv, _, _ := toExpr(runs[j].v)
+					res = mkop("ite", ew, cond, rv, res)
+				}
+				if len(tabCache) < 100000 {
+					tabCache[key] = tabEntry{res, len(runs)}
+				}
+				return wrap(res, k0)
+			}
+		}
+	}
 	// all scalar of one kind → ite chain folded over runs of equal cells
 	var k types.BasicKind
 	allScalar := n > 0
@@ -253,6 +293,20 @@ func loadIndexed(cells []value, idx *sym) value {
 	}
 	return cells[groups[gi].rep]
 }
+
+type tabKey struct {
+	p  *value
+	n  int
+	ie *expr
+}
+type tabEntry struct {
+	e     *expr
+	nruns int
+}
+
+// tabCache memoises ite chains for (table identity, index term); the run count is re-derived
+// from the live table on every use, and a table whose run structure changed misses the cache.
+var tabCache = map[tabKey]tabEntry{}
 
 func cellKey(c value) string {
 	switch x := c.(type) {
